@@ -123,7 +123,7 @@ func ruleTreeSplit(c *Ctx, r *R) {
 			return
 		}
 		cal := staticCallee(&call.Call)
-		if cal == nil || (cal.Name() != "Key" && cal.Name() != "Value" && cal.Name() != "Child") {
+		if cal == nil || (fname(cal) != "Key" && fname(cal) != "Value" && fname(cal) != "Child") {
 			return
 		}
 		ia, ok := st.Addr.(*ssa.IndexAddr)
@@ -140,7 +140,7 @@ func ruleTreeSplit(c *Ctx, r *R) {
 				}
 			}
 		}
-		r.ok(down, "tree.btree.overfill|left-"+arr+"-rewritten-downwards", st.Pos(), "left IS x, and all."+cal.Name()+"(i) reads x."+arr+"[i] or x."+arr+"[i-1] on the fly: rewriting left."+arr+" upwards overwrites slots before they are read (entries are duplicated and others lost)")
+		r.ok(down, "tree.btree.overfill|left-"+arr+"-rewritten-downwards", st.Pos(), "left IS x, and all."+fname(cal)+"(i) reads x."+arr+"[i] or x."+arr+"[i-1] on the fly: rewriting left."+arr+" upwards overwrites slots before they are read (entries are duplicated and others lost)")
 	})
 	if k < 3 {
 		r.violated("tree.btree.overfill|left-rewrite", fn.Pos(), "expected in-place rewrites of left.keys, left.values and left.children from the amalgam view")
@@ -156,11 +156,11 @@ func ruleTreeThresholds(c *Ctx, r *R) {
 				return
 			}
 			cal := staticCallee(&call.Call)
-			if cal == nil || (cal.Name() != "rotateLeft" && cal.Name() != "rotateRight") {
+			if cal == nil || (fname(cal) != "rotateLeft" && fname(cal) != "rotateRight") {
 				return
 			}
 			donor := call.Call.Args[2] // rotateLeft(x, right): donor = right
-			if cal.Name() == "rotateRight" {
+			if fname(cal) == "rotateRight" {
 				donor = call.Call.Args[1] // rotateRight(left, x): donor = left
 			}
 			good := false
@@ -175,7 +175,7 @@ func ruleTreeThresholds(c *Ctx, r *R) {
 					}
 				}
 			}
-			r.ok(good, "tree.btree.steal|donor-guard:"+cal.Name(), call.Pos(), "an entry may be taken only from a sibling with n > minKVs: taking one from a node at exactly minKVs leaves it under-full")
+			r.ok(good, "tree.btree.steal|donor-guard:"+fname(cal), call.Pos(), "an entry may be taken only from a sibling with n > minKVs: taking one from a node at exactly minKVs leaves it under-full")
 		})
 	} else {
 		r.undecided("tree.btree.steal|missing", token.NoPos, "anchor not found")
@@ -194,7 +194,7 @@ func ruleTreeThresholds(c *Ctx, r *R) {
 				return
 			}
 			cal := staticCallee(&call.Call)
-			if cal == nil || (cal.Name() != "steal" && cal.Name() != "merge") || len(call.Call.Args) < 2 {
+			if cal == nil || (fname(cal) != "steal" && fname(cal) != "merge") || len(call.Call.Args) < 2 {
 				return
 			}
 			if cal.Signature.Recv() == nil || !isNamedType(cal.Signature.Recv().Type(), treeRel, "btree") {
@@ -203,7 +203,7 @@ func ruleTreeThresholds(c *Ctx, r *R) {
 			k++
 			x := call.Call.Args[1]
 			good := underfullAt(c, x, b, mn, 0, map[ssa.Value]bool{})
-			r.ok(good, "tree.btree."+name+"|repair-trigger:"+cal.Name()+"#"+itoa(k), call.Pos(), cal.Name()+"("+path(x)+") must be reached only for a node known to have n < minKVs (established by a guard here, at the place the node value was produced, or at every call site)")
+			r.ok(good, "tree.btree."+name+"|repair-trigger:"+fname(cal)+"#"+itoa(k), call.Pos(), fname(cal)+"("+path(x)+") must be reached only for a node known to have n < minKVs (established by a guard here, at the place the node value was produced, or at every call site)")
 		})
 	}
 	if mg := bt(c, "merge"); mg != nil {
@@ -213,7 +213,7 @@ func ruleTreeThresholds(c *Ctx, r *R) {
 			if !ok {
 				return
 			}
-			if cal := staticCallee(&call.Call); cal == nil || cal.Name() != "mergeTwo" {
+			if cal := staticCallee(&call.Call); cal == nil || fname(cal) != "mergeTwo" {
 				return
 			}
 			for _, g := range append(guardsOf(b), guardsOfSelf(b)...) {
@@ -358,7 +358,7 @@ func underfullResult(c *Ctx, call *ssa.Call, idx int, mn int64, depth int, seen 
 func underfullOrigin(c *Ctx, v ssa.Value, mn int64) bool {
 	if ex, ok := v.(*ssa.Extract); ok && ex.Index == 2 {
 		if call, ok := ex.Tuple.(*ssa.Call); ok {
-			if cal := staticCallee(&call.Call); cal != nil && cal.Name() == "removeRightmost" {
+			if cal := staticCallee(&call.Call); cal != nil && fname(cal) == "removeRightmost" {
 				// inside removeRightmost the non-nil third result is assigned only under curr.n < minKVs
 				good := false
 				instrs(cal, func(b *ssa.BasicBlock, i int, in ssa.Instruction) {
@@ -499,7 +499,7 @@ func ruleTreeSize(c *Ctx, r *R) {
 				return ss(cnt | ins), true
 			}
 			if call, ok := in.(*ssa.Call); ok {
-				if cal := staticCallee(&call.Call); cal != nil && (cal.Name() == "insertIntoLeaf" || cal.Name() == "overfill" || cal.Name() == "insertOne") {
+				if cal := staticCallee(&call.Call); cal != nil && (fname(cal) == "insertIntoLeaf" || fname(cal) == "overfill" || fname(cal) == "insertOne") {
 					return ss(cnt | 4), true
 				}
 			}
@@ -538,10 +538,10 @@ func ruleTreeSize(c *Ctx, r *R) {
 			}
 			if call, ok := in.(*ssa.Call); ok {
 				if cal := staticCallee(&call.Call); cal != nil {
-					if cal.Name() == "removeRightmost" {
+					if fname(cal) == "removeRightmost" {
 						return ss(cnt | 4), true
 					}
-					if cal.Name() == "removeOne" {
+					if fname(cal) == "removeOne" {
 						if _, arr, ok := nodeArray(call.Call.Args[0]); ok && arr == "keys" {
 							return ss(cnt | 4), true
 						}
@@ -652,7 +652,7 @@ func ruleTreeShrinkZero(c *Ctx, r *R) {
 					}
 				case *ssa.Call:
 					cal := staticCallee(&y.Call)
-					if cal != nil && (cal.Name() == "removeOne" || cal.Name() == "Clear") {
+					if cal != nil && (fname(cal) == "removeOne" || fname(cal) == "Clear") {
 						if nd, arr, ok := nodeArray(y.Call.Args[0]); ok && path(nd) == xp {
 							zero[arr] = true
 						}
@@ -664,7 +664,7 @@ func ruleTreeShrinkZero(c *Ctx, r *R) {
 						for _, ref := range refsOf(y) {
 							switch z := ref.(type) {
 							case *ssa.Call:
-								if cal := staticCallee(&z.Call); cal != nil && cal.Name() == "insertOne" {
+								if cal := staticCallee(&z.Call); cal != nil && fname(cal) == "insertOne" {
 									movesChild = true
 								}
 							case *ssa.Store:
@@ -752,7 +752,7 @@ func ruleTreeSearchCost(c *Ctx, r *R) {
 		var calls []*ssa.Call
 		instrs(fn, func(b *ssa.BasicBlock, i int, in ssa.Instruction) {
 			if call, ok := in.(*ssa.Call); ok {
-				if cal := staticCallee(&call.Call); cal != nil && cal.Name() == "searchNode" {
+				if cal := staticCallee(&call.Call); cal != nil && fname(cal) == "searchNode" {
 					calls = append(calls, call)
 				}
 			}
@@ -800,7 +800,7 @@ func ruleTreeSearchCost(c *Ctx, r *R) {
 			instrs(g, func(b *ssa.BasicBlock, i int, in ssa.Instruction) {
 				if call, ok := in.(*ssa.Call); ok {
 					if cal := staticCallee(&call.Call); cal != nil {
-						if cal.Name() == "searchNode" {
+						if fname(cal) == "searchNode" {
 							reach = true
 						} else if cal.Pkg == f.Pkg {
 							walk(cal)
@@ -815,10 +815,10 @@ func ruleTreeSearchCost(c *Ctx, r *R) {
 }
 
 func ruleTreeParentLinks(c *Ctx, r *R) {
-	for _, fname := range []string{"overfill", "mergeTwo", "rotateLeft", "rotateRight"} {
-		fn := bt(c, fname)
+	for _, fnm := range []string{"overfill", "mergeTwo", "rotateLeft", "rotateRight"} {
+		fn := bt(c, fnm)
 		if fn == nil {
-			r.undecided("tree.btree."+fname+"|missing", token.NoPos, "anchor not found")
+			r.undecided("tree.btree."+fnm+"|missing", token.NoPos, "anchor not found")
 			continue
 		}
 		// parent stores in the function: child-path → parent-path
@@ -860,7 +860,7 @@ func ruleTreeParentLinks(c *Ctx, r *R) {
 				cal := staticCallee(&x.Call)
 				bi, isB := x.Call.Value.(*ssa.Builtin)
 				switch {
-				case cal != nil && cal.Name() == "insertOne":
+				case cal != nil && fname(cal) == "insertOne":
 					nd, arr, ok := nodeArray(x.Call.Args[0])
 					if !ok || arr != "children" {
 						return
@@ -883,7 +883,7 @@ func ruleTreeParentLinks(c *Ctx, r *R) {
 					}
 					if child == "" {
 						k++
-						r.violated("tree.btree."+fname+"|parent-link#"+itoa(k), pos, "children of "+path(nd2)+" are copied into "+X+" but their parent pointers are not set to "+X)
+						r.violated("tree.btree."+fnm+"|parent-link#"+itoa(k), pos, "children of "+path(nd2)+" are copied into "+X+" but their parent pointers are not set to "+X)
 						return
 					}
 				default:
@@ -893,7 +893,7 @@ func ruleTreeParentLinks(c *Ctx, r *R) {
 				return
 			}
 			k++
-			r.ok(has(child, X), "tree.btree."+fname+"|parent-link#"+itoa(k)+":"+X, pos, "a child ("+child+") is placed under "+X+" but the function does not set its parent to "+X+": iteration and later repairs climb through parent pointers and would use the old parent")
+			r.ok(has(child, X), "tree.btree."+fnm+"|parent-link#"+itoa(k)+":"+X, pos, "a child ("+child+") is placed under "+X+" but the function does not set its parent to "+X+": iteration and later repairs climb through parent pointers and would use the old parent")
 		})
 	}
 	// root has no parent: where mergeTwo installs a new root it clears its parent
@@ -944,7 +944,7 @@ func ruleChildrenOneMore(c *Ctx, r *R) {
 			}
 			hname := ""
 			if cal := staticCallee(&call.Call); cal != nil {
-				hname = cal.Name()
+				hname = fname(cal)
 			} else if bi, ok := call.Call.Value.(*ssa.Builtin); ok {
 				hname = bi.Name()
 			}
